@@ -10,7 +10,8 @@
 (*                                                                         *)
 (* Header h: [ncomp, deps : Seq(index),                                    *)
 (*            integ : Seq(<<uri id, content id>>)   integrated members,    *)
-(*            lens  : Seq(<<content id, length>>)]                         *)
+(*            lens  : Seq(<<content id, length>>),                         *)
+(*            mf    : Seq(<<content id, wrapped-manifest id>>)]            *)
 (* Events of one command sequence (the shared sequence is replayed in      *)
 (* front of every sequence, as a device does):                             *)
 (*   Seq    {name}                       parameters and contents reset     *)
@@ -39,13 +40,19 @@ All(h) == 0..(h.ncomp - 1)
 
 \* parameter codes a command reads (Registry.tla `parameter` / `command` spaces)
 Needs(code) == CASE code = 1 -> {1} [] code = 2 -> {2} [] code = 3 -> {3} [] code = 5 -> {5} [] code = 6 -> {18}
-                 [] code = 7 -> {3} [] code = 24 -> {24} [] code = 28 -> {28} [] code = 18 -> {18} [] code = 21 -> {21}
+                 [] code = 24 -> {24} [] code = 28 -> {28} [] code = 18 -> {18} [] code = 21 -> {21}
                  [] code = 22 -> {22} [] code = 31 -> {22} [] OTHER -> {}
+\* dependency-integrity (7) compares with the image digest only "if present" (the shipped top template runs it in suit-load
+\* and suit-invoke without one): it reads no parameter that must be set
 DepOnly == {7, 11}
 NoSelection == {12, 14, 15, 32}
 Encrypted == 19
 
 Pick(pairs, k) == IF \E x \in Rng(pairs) : x[1] = k THEN (CHOOSE x \in Rng(pairs) : x[1] = k)[2] ELSE -1
+
+\* a digest names a content when it is the hash of the content itself or - the content being a dependency envelope - the hash of
+\* that envelope's wrapped manifest (h.mf : Seq(<<content id, id of its wrapped manifest>>))
+Matches(h, d, content) == d = content \/ (Pick(h.mf, content) # -1 /\ d = Pick(h.mf, content))
 
 InitCore(h) == [sel |-> {0}, selok |-> TRUE, set |-> [i \in All(h) |-> {}],
                 uri |-> [i \in All(h) |-> -1], dg |-> [i \in All(h) |-> -1], size |-> [i \in All(h) |-> -1],
@@ -64,7 +71,7 @@ CmdJudge(h, p, e) ==
        THEN (IF 22 \in Rng(e.ps) /\ e.src \notin All(h) THEN "SourceComponentDeclared" ELSE "ok")
   ELSE IF \E i \in c.sel : ~(Needs(e.code) \subseteq c.set[i]) THEN "ParameterSetBeforeUse"
   ELSE IF e.code \in DepOnly /\ ~(c.sel \subseteq Rng(h.deps)) THEN "DependencyCommandOnDependencyComponent"
-  ELSE IF e.code = 3 /\ top /\ \E i \in c.sel : c.content[i] >= 0 /\ c.dg[i] # -1 /\ c.dg[i] # c.content[i]
+  ELSE IF e.code = 3 /\ top /\ \E i \in c.sel : c.content[i] >= 0 /\ c.dg[i] # -1 /\ ~Matches(h, c.dg[i], c.content[i])
        THEN "ImageMatchHoldsForIntegratedContent"
   ELSE IF e.code = 3 /\ top /\ \E i \in c.sel : /\ c.content[i] >= 0 /\ c.size[i] >= 0
                                                 /\ Pick(h.lens, c.content[i]) >= 0 /\ c.size[i] # Pick(h.lens, c.content[i])
